@@ -129,7 +129,8 @@ def make_case(rng):
     c["init"] = rng.choice(["auto", "none", "Poisson", "redist"])
     c["policy"] = rng.choice(["on_t_sample", "on_iteration", "on_interval", "no_sampling"])
     c["explicit_tmax"] = rng.random() < 0.5
-    c["seed"] = rng.randrange(2 ** 31)
+    # (seeds of every size: a file must hand back the very integer, also beyond 2^53 where a detour through a float would round it)
+    c["seed"] = rng.choice([rng.randrange(2 ** 31), rng.randrange(2 ** 31), 0, 1, 2 ** 32 - 1, 2 ** 53 + 1, 2 ** 63 - 25, rng.randrange(2 ** 62, 2 ** 63)])
     c["separate_data"] = rng.random() < 0.5
     c["alias_seed"] = rng.randrange(2 ** 30)
     # a coarse-grained run: the trajectory's own system (the grid) then differs from the system of its script (the graph)
@@ -1022,7 +1023,7 @@ def make_script_case(rng):
         return {"v": rng.choice([0.5, 1.0, 0.125, 2.0, 1e-3, 30.0]), "sys": list(sysgen.rand_sys(rng)), "dim": [0, 1, 0]}
     ts = sorted(rng.choice([0.0, 0.5, 1.0, 2.0, 3.5, 10.0]) for _ in range(rng.randint(1, 5)))
     return {"system": sy, "ts": ts, "ts_units": tu, "dt": tq(), "tmax": tq() if rng.random() < 0.5 else None,
-            "policy": rng.choice(["on_t_sample", "on_iteration", "on_interval", "no_sampling"]), "interval": tq(), "seed": rng.randrange(2 ** 32),
+            "policy": rng.choice(["on_t_sample", "on_iteration", "on_interval", "no_sampling"]), "interval": tq(), "seed": rng.choice([rng.randrange(2 ** 32), rng.randrange(2 ** 32), 0, 2 ** 53 + 1, rng.randrange(2 ** 62, 2 ** 63)]),
             "init": rng.choice(["auto", "none", "Poisson", "redist"]), "units": list(sysgen.rand_sys(rng)), "alias_seed": rng.randrange(2 ** 30)}
 
 
